@@ -24,7 +24,7 @@ HEADER = ("From Coq Require Import ZArith.\n"
 MSG_RE = re.compile(r"^Magic number (.*) should be a named constant$", re.S)
 TS_MARKERS = [".test.", ".spec.", "test_", "_test.", "/tests/", "/test/"]
 
-# name pools: the same lists as MagicSpec.name_pool (file_good is evaluated for every case, so a mismatch shows)
+# name pools: the same lists as MagicSpec.name_pool; 45 % of the names are built from pieces (gen_name); file_good is evaluated for every case
 NAMES = {
     "py": [("/case.py", 30), ("/util/helpers.py", 8), ("/test_case.py", 3), ("/case_test.py", 3), ("/tests/helper.py", 3),
            ("/constants.py", 2), ("/app_constants.py", 2), ("/status_codes.py", 2), ("/contest.py", 2), ("/latest_results.py", 2)],
@@ -122,6 +122,8 @@ def gen_numeric(r, lang, small_bias=False):
         fp = [] if r.random() < 0.25 else [r.randint(0, 9) for _ in range(r.randint(1, 3))]
         if fp and r.random() < 0.35:
             fp = [0] * len(fp) if r.random() < 0.6 else fp[:-1] + [0]      # 3.0, 2.50: equal to shorter decimals / ints
+        if fp and lang != "rs" and r.random() < 0.12:
+            ip = []                                          # .5 / .25e3 (no integer part; not a Rust literal)
         ex = None
         if not fp or r.random() < 0.3:
             ex = [r.random() < 0.4, digits_of(r.randint(0, 6), 10), r.random() < 0.35]      # 1e5 / 25E-1
@@ -176,8 +178,44 @@ def gen_site(r, lang, kind):
     return {"ctx": c, "name": name, "lits": lits, "line": 0, "dir": r.randrange(len(R.DIR_POOL)) if r.random() < 0.12 else None}
 
 
+DIR_PIECES = ["src", "util", "tests", "test", "lib", "pkg_a", "Config", "generated", "latest", "contest", "my_tests", "unit.test.d", "legacy",
+              "test_data", "spec"]
+STEM_PIECES = ["case", "helper", "data", "test", "tests", "latest", "contest", "constants", "codes", "status", "Test", "TEST", "spec", "x", "a1",
+               "main", "Constants", "CODES", "py", "util"]
+
+
+def gen_name(r, lang):
+    """a file name: from the fixed pool (plain, test-named, constants modules, look-alikes), or built from pieces (MagicSpec.name_good:
+    any path for TypeScript / JavaScript / Rust; <dot-free stem>.py for Python)"""
+    if r.random() < 0.55:
+        return wchoice(r, NAMES[lang])
+    dirs = [r.choice(DIR_PIECES) for _ in range(r.choice([0, 0, 1, 1, 2]))]
+    stem = r.choice(["", "_", "-"]).join(r.choice(STEM_PIECES) for _ in range(r.choice([1, 2, 2, 3])))
+    k = r.random()
+    if k < 0.12:
+        stem = "test_" + stem
+    elif k < 0.24:
+        stem = stem + "_test"
+    elif k < 0.30:
+        stem = stem + "_tests"
+    elif k < 0.36:
+        stem = stem + r.choice(["_constants", "_codes", "_Codes", "constants", "_CONSTANTS"])
+    if r.random() < 0.15:                                     # letter case of the whole stem (markers are case-sensitive or not)
+        stem = r.choice([stem.upper(), stem.capitalize(), stem.lower()])
+    if lang != "py" and r.random() < 0.25:                    # dotted stems: case.test.ts, a.spec.js, data.d.ts, x.tests.ts
+        stem += r.choice([".test", ".spec", ".d", ".tests", ".Test", ".min", ".test.spec"])
+    return "/" + "/".join(dirs + [stem + R.EXT[lang]])
+
+
+def name_class(name: str) -> str:
+    base = name.rsplit("/", 1)[1].lower()
+    ks = [k for k in ("test_", "_test.", ".test.", ".spec.", "constants", "_codes") if k in base]
+    ks += [k for k in ("/tests/", "/test/") if k in name]
+    return "+".join(ks) or "plain"
+
+
 def gen_file(r, lang):
-    name = wchoice(r, NAMES[lang])
+    name = gen_name(r, lang)
     kinds = {"py": [("Top", 4), ("Func", 5), ("Method", 2), ("Nested", 1), ("Class", 1)],
              "ts": [("Top", 4), ("Func", 5), ("Method", 2), ("Nested", 1), ("Class", 1)],
              "js": [("Top", 4), ("Func", 5), ("Method", 2), ("Nested", 1)],
@@ -517,7 +555,7 @@ def lit_kinds(f):
                 if l[0] == "Int":
                     ks.add("lit:" + l[1] + ("_" if len(l[2]) > 1 else "") + ("+suffix" if l[4] else ""))
                 elif l[0] == "Float":
-                    ks.add("lit:Float" + (("E" if len(l[3]) > 2 and l[3][2] else "e") if l[3] is not None else "") + ("+suffix" if l[4] else ""))
+                    ks.add("lit:" + ("DotFloat" if not l[1] else "Float") + (("E" if len(l[3]) > 2 and l[3][2] else "e") if l[3] is not None else "") + ("+suffix" if l[4] else ""))
                 else:
                     ks.add("lit:" + l[0])
     return ks
@@ -557,7 +595,8 @@ def run(tier: str, seed: int, replay: str | None = None) -> int:
                 "Rust macro argument, UPPER_CASE definition in four shapes, range / enumerate, string repetition, dict keys, enum member, "
                 "static item); literals: decimal, hex / octal / binary, "
                 "underscore-separated, Rust-suffixed, BigInt, short floats with exponents, booleans, digit strings, identifiers; file names from "
-                "a pool (plain, test-named, constants modules, look-alikes); each file linted under 2-4 configurations (default / empty / "
+                "a pool (plain, test-named, constants modules, look-alikes) or built from directory / stem pieces (test_ / _test / .test. / "
+                ".spec. / constants / codes markers in every position and letter case, dotted TypeScript stems); each file linted under 2-4 configurations (default / empty / "
                 "singleton / float allowed_numbers drawn from the file's own values, max_small_integer 1..12, and in 40 % per-language "
                 "python / typescript / javascript / rust sub-sections setting none, one or both keys) plus each configuration with one "
                 "value added to or removed from the allowed_numbers list in effect; a case (file, configuration) is non-trivial when the documented rule reports "
@@ -606,7 +645,7 @@ def run(tier: str, seed: int, replay: str | None = None) -> int:
         lang = COQ_LANG[f["lang"]]
         chk.dist("lang:" + f["lang"])
         chk.dist("via:" + case["via"])
-        chk.dist("name:" + f["name"])
+        chk.dist("name:" + ("pool" if f["name"] in [n for n, _ in NAMES[f["lang"]]] else "built") + ":" + name_class(f["name"]))
         for k in lit_kinds(f):
             chk.dist(k)
         chk.sample({"lang": f["lang"], "name": f["name"], "text": case["text"][:500], "config": impl_config(case["cfgs"][0]),
